@@ -58,6 +58,7 @@ package blockwise
 //@ immutable BlockWise.sendingMessagesCache
 //@ immutable BlockWise.receivingMessagesCache
 //@ immutable BlockWise.cc
+//@ immutable BlockWise.expiration
 //
 // ---- C04: the sender's block arithmetic ----------------------------------------------------------------
 //
@@ -120,8 +121,14 @@ package blockwise
 //@   trusted
 //@   ensures m != nil ==> len(m.msg.Options) < 1000000
 //
+// getValidUntil: how long the state of a transfer may be kept - the deadline of the request it belongs to
+// when that has one, otherwise the configured expiration from now; never "for ever" (the zero time).
+//
 //@ func (*BlockWise) getValidUntil(sentRequest *pool.Message) (t time.Time)
-//@   trusted
+//@   requires b != nil && b.expiration > 0 && b.expiration < 4611686018427387904
+//@   opaque-calls pure
+//@   ensures [deadline-or-expiration] (called(Deadline) && callRes(Deadline, 0, 1) ==> t == callRes(Deadline, 0, 0)) && (!(called(Deadline) && callRes(Deadline, 0, 1)) ==> t == callRes(Now, 0, 0) + b.expiration)
+//@   ensures [asks-the-request] sentRequest != nil ==> called(Deadline)
 //
 //@ func isObserveResponse(msg *pool.Message) (b bool)
 //@   trusted
@@ -131,24 +138,35 @@ package blockwise
 //
 //@ func (*BlockWise) getCachedReceivedMessage(mg *messageGuard, r *pool.Message, tokenStr uint64, validUntil time.Time) (m *pool.Message, closeFn func(), err error)
 //@   trusted
-//@   ensures err == nil ==> m != nil && closeFn != nil && msgInv(m)
+//@   ensures err == nil ==> m != nil && closeFn != nil && msgInv(m) && len(m.msg.Options) < 100000
+//@   ensures err == nil ==> (forall j int :: {r.msg.Options[j].ID} 0 <= j && j < len(r.msg.Options) ==> disjoint(r.msg.Options[j].Value, m.valueBuffer[0 : cap(m.valueBuffer)]))
+//
+// getPayloadFromCachedReceivedMessage: the number of bytes held that it reports is read AFTER the body
+// was emptied because the representation changed (new ETag), never before.
 //
 //@ func (*BlockWise) getPayloadFromCachedReceivedMessage(r *pool.Message, cachedReceivedMessage *pool.Message) (f *memfile.File, size int64, err error)
-//@   trusted
-//@   ensures err == nil ==> size >= 0
+//@   requires b != nil && r != nil && cachedReceivedMessage != nil && msgInv(cachedReceivedMessage) && len(cachedReceivedMessage.msg.Options) < 100000
+//@   requires [received-values-elsewhere] forall j int :: {r.msg.Options[j].ID} 0 <= j && j < len(r.msg.Options) ==> disjoint(r.msg.Options[j].Value, cachedReceivedMessage.valueBuffer[0 : cap(cachedReceivedMessage.valueBuffer)])
+//@   modifies cachedReceivedMessage.msg.Options, cachedReceivedMessage.msg.Options[0 : cap(cachedReceivedMessage.msg.Options)], cachedReceivedMessage.valueBuffer, cachedReceivedMessage.valueBuffer[0 : cap(cachedReceivedMessage.valueBuffer)], cachedReceivedMessage.isModified
+//@   opaque-calls pure
+//@   ensures [keeps-message-invariant] msgInv(cachedReceivedMessage) && len(cachedReceivedMessage.msg.Options) < 100002
+//@   ensures [size-is-current] err == nil ==> callCount(BodySize) == 1 && size == callRes(BodySize, 0, 0) && callArg(BodySize, 0, 0) == cachedReceivedMessage && (called(Truncate) ==> callSeq(Truncate, 0) < callSeq(BodySize, 0))
+//@   ensures [truncates-to-empty] called(Truncate) ==> callCount(Truncate) == 1 && callArg(Truncate, 0, 1) == 0 && (err == nil ==> callArg(Truncate, 0, 0) == f)
 //
 //@ func copyToPayloadFromOffset(r *pool.Message, payloadFile *memfile.File, offset int64) (size int64, err error)
 //@   trusted
 //@   ensures err == nil ==> size >= offset
 //
 //@ func (*BlockWise) processReceivedMessage(w *responsewriter.ResponseWriter, r *pool.Message, maxSzx SZX, next func(w *responsewriter.ResponseWriter, r *pool.Message), blockType message.OptionID, sizeType message.OptionID) (err error)
-//@   requires b != nil && w != nil && r != nil && maxSzx <= 7 && b.receivingMessagesCache != nil && b.receivingMessagesCache.Map != nil && b.sendingMessagesCache != nil && b.sendingMessagesCache.Map != nil
+//@   requires b != nil && w != nil && r != nil && maxSzx <= 7 && b.expiration > 0 && b.expiration < 4611686018427387904 && b.receivingMessagesCache != nil && b.receivingMessagesCache.Map != nil && b.sendingMessagesCache != nil && b.sendingMessagesCache.Map != nil
 //@   modifies anything
 //@   opaque-calls pure
 //@   lockinv [no-nil-elements] forall k int :: {present(b.receivingMessagesCache.Map.data, k)} present(b.receivingMessagesCache.Map.data, k) ==> b.receivingMessagesCache.Map.data[k] != nil
 //@   ensures [passes-through-plain] notCalled(DecodeBlockOption) && err == nil ==> callCount(next) == 1 && callArg(next, 0, 0) == w && callArg(next, 0, 1) == r && notCalled(copyToPayloadFromOffset) && notCalled(SetMessage)
 //@   ensures [at-most-one-delivery] callCount(next) <= 1 && callCount(copyToPayloadFromOffset) <= 1
 //@   ensures [appends-only-at-end] called(copyToPayloadFromOffset) ==> callArg(copyToPayloadFromOffset, 0, 2) == callRes(getPayloadFromCachedReceivedMessage, 0, 1) && callArg(copyToPayloadFromOffset, 0, 2) == callRes(DecodeBlockOption, 0, 1) * callRes(Size, 0, 0) && callArg(copyToPayloadFromOffset, 0, 0) == r && callArg(copyToPayloadFromOffset, 0, 1) == callRes(getPayloadFromCachedReceivedMessage, 0, 0)
+//@   ensures [offset-in-the-senders-block-size] called(copyToPayloadFromOffset) && called(Data) && callRes(Data, 0, 0) != nil ==> callArg(Size, 0, 0) == callRes(DecodeBlockOption, 0, 0)
+//@   ensures [first-block-negotiates-size] called(copyToPayloadFromOffset) && !(called(Data) && callRes(Data, 0, 0) != nil) ==> callArg(Size, 0, 0) == min(callRes(DecodeBlockOption, 0, 0), maxSzx)
 //@   ensures [other-blocks-change-nothing] called(getPayloadFromCachedReceivedMessage) && callRes(getPayloadFromCachedReceivedMessage, 0, 2) == nil && callRes(DecodeBlockOption, 0, 1) * callRes(Size, 0, 0) != callRes(getPayloadFromCachedReceivedMessage, 0, 1) ==> notCalled(copyToPayloadFromOffset) && notCalled(next)
 //@   ensures [complete-delivered-once] called(copyToPayloadFromOffset) && callRes(copyToPayloadFromOffset, 0, 1) == nil && !callRes(DecodeBlockOption, 0, 2) && err == nil ==> callCount(next) == 1 && callArg(next, 0, 1) == callRes(getCachedReceivedMessage, 0, 0) && called(Delete) && callSeq(Delete, 0) < callSeq(next, 0) && notCalled(SetMessage)
 //@   ensures [lone-final-block-of-upload-refused] called(DecodeBlockOption) && callRes(DecodeBlockOption, 0, 3) == nil && blockType == 27 && !callRes(DecodeBlockOption, 0, 2) && callRes(DecodeBlockOption, 0, 1) != 0 && notCalled(getCachedReceivedMessage) ==> err != nil && notCalled(next)
